@@ -1,6 +1,6 @@
 (* C04 - Statistics belong only to the function that actually ran.  Statements only. *)
 From Coq Require Import List ZArith Bool.
-From LP Require Import Trace.GenRun Trace.ZMap Trace.Concrete Trace.Abstract Trace.AbstractFacts Trace.Main Trace.Witness.
+From LP Require Import Gen.PyLayer Trace.PyLayerFacts Trace.GenRun Trace.ZMap Trace.Concrete Trace.Abstract Trace.AbstractFacts Trace.Main Trace.Witness.
 Import ListNotations.
 Open Scope Z_scope.
 
@@ -51,3 +51,21 @@ Proof. exact padding_collision. Qed.
 Theorem C04_model_is_generated_core :
   forall codes tick start ops, gen_run codes tick start ops = run codes tick start ops.
 Proof. exact gen_run_eq. Qed.
+
+(* The registration entry points of the Python layer (Gen/PyLayer.v, regenerated from line_profiler.py and
+   autoprofile/line_profiler_utils.py on this run) hand to add_function exactly the functions they are given: those
+   of the module dict and of the classes in it; for the auto-profiling hook the function, the class's own functions,
+   or the module's - nothing is skipped or de-duplicated at this layer, so every function gets its own registration
+   (and, when byte-identical to another, its own padded code). *)
+Theorem C04_entry_points_register_exactly_what_they_are_handed :
+  (forall members c, In c (gen_add_module_targets members) <->
+     In (IFunc c) members \/ exists ms, In (IClass ms) members /\ In (IFunc c) ms)
+  /\ (forall it c, In c (fst (gen_imported_targets it)) <->
+       match it with
+       | IFunc c0 => c = c0
+       | IClass ms => In (IFunc c) ms
+       | IModule ms => In (IFunc c) ms \/ exists cs, In (IClass cs) ms /\ In (IFunc c) cs
+       | IOther => False
+       end)
+  /\ (forall a b, gen_add_module_targets (a ++ b) = gen_add_module_targets a ++ gen_add_module_targets b).
+Proof. exact (conj add_module_targets_exact (conj imported_targets_exact add_module_targets_multiplicity)). Qed.
